@@ -465,32 +465,41 @@ def loadAfterWindow (mods : List P11Module) (ksk : KskKey) (pol : KskPolicy) (is
     | (.error e, s2) => (.error e, s2)
     | (.ok f, s2) => (acceptKey ksk pol f, s2)
 
+/-- the same, as a `TokM` computation -/
+def loadAfterWindowM (mods : List P11Module) (ksk : KskKey) (pol : KskPolicy) (isPublic : Bool) :
+    TokM (Option CompositeKey) := do
+  match ← getP11Key ksk.label isPublic ksk.hashUsingHsm mods with
+  | none => pure none
+  | some found0 => do
+    let found ← refetchPublic mods ksk isPublic found0
+    acceptKeyM ksk pol found
+
+theorem loadAfterWindowM_run (mods : List P11Module) (ksk : KskKey) (pol : KskPolicy)
+    (isPublic : Bool) (tok : Token) (s : TokState) :
+    loadAfterWindowM mods ksk pol isPublic tok s = loadAfterWindow mods ksk pol isPublic tok s := by
+  unfold loadAfterWindow loadAfterWindowM
+  rw [bind_run]
+  cases getP11Key ksk.label isPublic ksk.hashUsingHsm mods tok s with
+  | mk r s1 =>
+    cases r with
+    | error e => rfl
+    | ok o =>
+      cases o with
+      | none => rfl
+      | some f0 =>
+        simp only [bind_run]
+        cases refetchPublic mods ksk isPublic f0 tok s1 with
+        | mk r2 s2 =>
+          cases r2 with
+          | error e => rfl
+          | ok f => simp only [acceptKeyM_eq, TokM.lift_run]
+
 theorem loadPkcs11Key_inside (mods : List P11Module) (ksk : KskKey) (pol : KskPolicy) (b : Bundle)
     (isPublic : Bool) (tok : Token) (s : TokState) (h : ¬ WindowViolated ksk b) :
     loadPkcs11Key mods ksk pol b isPublic tok s = loadAfterWindow mods ksk pol isPublic tok s := by
   have h1 : ¬ ksk.validFrom > b.inception := fun x => h (Or.inl x)
-  have key : (do
-      match ← getP11Key ksk.label isPublic ksk.hashUsingHsm mods with
-      | none => pure none
-      | some found0 => do
-        let found ← refetchPublic mods ksk isPublic found0
-        acceptKeyM ksk pol found) tok s = loadAfterWindow mods ksk pol isPublic tok s := by
-    unfold loadAfterWindow
-    rw [bind_run]
-    cases getP11Key ksk.label isPublic ksk.hashUsingHsm mods tok s with
-    | mk r s1 =>
-      cases r with
-      | error e => rfl
-      | ok o =>
-        cases o with
-        | none => rfl
-        | some f0 =>
-          simp only [bind_run]
-          cases refetchPublic mods ksk isPublic f0 tok s1 with
-          | mk r2 s2 =>
-            cases r2 with
-            | error e => rfl
-            | ok f => simp only [acceptKeyM_eq, TokM.lift_run]
+  have key := loadAfterWindowM_run mods ksk pol isPublic tok s
+  unfold loadAfterWindowM at key
   rw [← key]
   unfold loadPkcs11Key
   simp only [h1, ↓reduceIte]
@@ -572,12 +581,25 @@ theorem refetchPublic_emits (mods : List P11Module) (ksk : KskKey) (isPublic : B
   unfold refetchPublic
   repeat' emits_step
 
+theorem acceptKeyM_emits {P} (ksk : KskKey) (pol : KskPolicy) (found : P11Key) :
+    Emits P (acceptKeyM ksk pol found) := by
+  rw [acceptKeyM_eq]; exact Emits.lift _
+
+theorem loadAfterWindowM_emits (mods : List P11Module) (ksk : KskKey) (pol : KskPolicy)
+    (isPublic : Bool) : Emits (IsReadAmong mods) (loadAfterWindowM mods ksk pol isPublic) := by
+  unfold loadAfterWindowM
+  refine Emits.bind (getP11Key_emits ksk.label isPublic ksk.hashUsingHsm mods) (fun o => ?_)
+  split
+  · exact Emits.pure _
+  · exact Emits.bind (refetchPublic_emits mods ksk isPublic _) (fun f => acceptKeyM_emits ksk pol f)
+
 theorem loadPkcs11Key_emits (mods : List P11Module) (ksk : KskKey) (pol : KskPolicy) (b : Bundle)
     (isPublic : Bool) : Emits (IsReadAmong mods) (loadPkcs11Key mods ksk pol b isPublic) := by
-  have h1 := getP11Key_emits ksk.label true ksk.hashUsingHsm mods
-  have h2 := getP11Key_emits ksk.label isPublic ksk.hashUsingHsm mods
-  unfold loadPkcs11Key
-  repeat' emits_step
+  intro tok s
+  by_cases h : WindowViolated ksk b
+  · rw [loadPkcs11Key_violated _ _ _ _ _ _ _ h]; exact ⟨[], rfl, rfl, by simp⟩
+  · rw [loadPkcs11Key_inside _ _ _ _ _ _ _ h, ← loadAfterWindowM_run]
+    exact loadAfterWindowM_emits mods ksk pol isPublic tok s
 
 /-! ### `_fetch_keys` -/
 
@@ -610,11 +632,11 @@ theorem fetchKeys_cons_run (ext : Externals) (mods : List P11Module) (cfg : Sign
         cases o with
         | none => rfl
         | some ck =>
-          simp only [TokM.lift_run]
+          simp only [lift_bind_run]
           cases validateDnskeyMatchesKsk ext ksk ck.dns with
           | error e => rfl
           | ok u =>
-            simp only
+            simp only [bind_run]
             cases fetchKeys ext mods cfg b isPublic rest tok s1 with
             | mk r2 s2 => cases r2 <;> rfl
 
@@ -630,5 +652,200 @@ theorem fetchKeys_emits (ext : Externals) (mods : List P11Module) (cfg : SignerC
     · exact Emits.err _
     · refine Emits.bind (this _) (fun o => ?_)
       repeat' emits_step
+
+/-! ### The `sessions` property -/
+
+def openOpOf (m : P11Module) (slot : Nat) : TokOp :=
+  .openSession m.path slot (if m.rwSession then ckfRwSession else 0)
+
+def loginOpOf (m : P11Module) (slot : Nat) (p : String) : TokOp :=
+  .login m.path slot p (if m.soLogin then ckuSo else ckuUser)
+
+/-- open + (when a PIN is configured) login on one slot: was the slot kept, and the state after -/
+def openOne (m : P11Module) (slot : Nat) (tok : Token) (s : TokState) : Bool × TokState :=
+  let o := tok s.count (openOpOf m slot)
+  let s1 := s.push (openOpOf m slot) o
+  if o = .error then (false, s1) else
+  match (if m.soLogin then m.soPin else m.pin) with
+  | none => (true, s1)
+  | some p =>
+    let l := tok s1.count (loginOpOf m slot p)
+    (decide (l ≠ .error), s1.push (loginOpOf m slot p) l)
+
+def keepSlot (acc : P11Module) (slot : Nat) : P11Module := { acc with sessions := acc.sessions ++ [slot] }
+def dropSlot (acc : P11Module) (slot : Nat) : P11Module :=
+  { acc with slots := acc.slots.filter (· != slot) }
+
+theorem openSessions_cons_run (m : P11Module) (slot : Nat) (rest : List Nat) (acc : P11Module)
+    (tok : Token) (s : TokState) :
+    openSessions m (slot :: rest) acc tok s =
+      openSessions m rest (if (openOne m slot tok s).1 then keepSlot acc slot else dropSlot acc slot)
+        tok (openOne m slot tok s).2 := by
+  rw [openSessions]
+  simp only [bind_run, ask_run']
+  unfold openOne openOpOf
+  simp only
+  cases ho : tok s.count (TokOp.openSession m.path slot (if m.rwSession = true then ckfRwSession else 0))
+  case error => simp [dropSlot]
+  all_goals
+    simp only [reduceCtorEq, ↓reduceIte]
+    cases hp : (if m.soLogin = true then m.soPin else m.pin) with
+    | none => simp [keepSlot]
+    | some p =>
+      simp only [bind_run, ask_run', loginOpOf]
+      cases hl : tok (s.count + 1) (TokOp.login m.path slot p (if m.soLogin = true then ckuSo else ckuUser)) <;>
+        simp [keepSlot, dropSlot, TokState.push, hl]
+
+
+/-- the slot a logged answer refuses (an `.error` answer to open-session or login on `path`) -/
+def refusalOf (path : String) (e : TokOp × TokAns) : Option Nat :=
+  match e with
+  | (.openSession p s _, .error) => if p = path then some s else none
+  | (.login p s _ _, .error) => if p = path then some s else none
+  | _ => none
+
+/-- according to the logged answers `l`, slot `sl` of module `path` refused to open or to log in -/
+def refusedIn (path : String) (l : List (TokOp × TokAns)) (sl : Nat) : Bool :=
+  l.any fun e => refusalOf path e == some sl
+
+theorem refusedIn_append (path : String) (a b : List (TokOp × TokAns)) (x : Nat) :
+    refusedIn path (a ++ b) x = (refusedIn path a x || refusedIn path b x) := by
+  simp [refusedIn, List.any_append]
+
+theorem refusalOf_open (m : P11Module) (slot : Nat) (a : TokAns) :
+    refusalOf m.path (openOpOf m slot, a) = if a = .error then some slot else none := by
+  cases a <;> simp [refusalOf, openOpOf]
+
+theorem refusalOf_login (m : P11Module) (slot : Nat) (p : String) (a : TokAns) :
+    refusalOf m.path (loginOpOf m slot p, a) = if a = .error then some slot else none := by
+  cases a <;> simp [refusalOf, loginOpOf]
+
+theorem openOne_log (m : P11Module) (slot : Nat) (tok : Token) (s : TokState) :
+    ∃ l₁, (openOne m slot tok s).2.log = l₁ ++ s.log ∧
+      refusedIn m.path l₁ slot = !(openOne m slot tok s).1 ∧
+      ∀ x, x ≠ slot → refusedIn m.path l₁ x = false := by
+  unfold openOne
+  simp only
+  by_cases ho : tok s.count (openOpOf m slot) = .error
+  · simp only [ho, ↓reduceIte]
+    refine ⟨[(openOpOf m slot, .error)], by simp, by simp [refusedIn, refusalOf_open], ?_⟩
+    intro x hx; simp [refusedIn, refusalOf_open]; exact fun h => hx h.symm
+  · simp only [ho, ↓reduceIte]
+    cases hp : (if m.soLogin = true then m.soPin else m.pin) with
+    | none =>
+      exact ⟨[(openOpOf m slot, tok s.count (openOpOf m slot))], by simp,
+        by simp [refusedIn, refusalOf_open, ho], by simp [refusedIn, refusalOf_open, ho]⟩
+    | some p =>
+      simp only [TokState.push_count]
+      by_cases hl : tok (s.count + 1) (loginOpOf m slot p) = .error
+      · refine ⟨[(loginOpOf m slot p, .error), (openOpOf m slot, tok s.count (openOpOf m slot))],
+          by simp [hl], by simp [refusedIn, refusalOf_open, refusalOf_login, ho, hl], ?_⟩
+        intro x hx; simp [refusedIn, refusalOf_open, refusalOf_login, ho]; exact fun h => hx h.symm
+      · exact ⟨[(loginOpOf m slot p, tok (s.count + 1) (loginOpOf m slot p)),
+            (openOpOf m slot, tok s.count (openOpOf m slot))],
+          by simp, by simp [refusedIn, refusalOf_open, refusalOf_login, ho, hl],
+          by simp [refusedIn, refusalOf_open, refusalOf_login, ho, hl]⟩
+
+
+/-! ### Evaluating the attribute → public key conversion on a token with stable answers -/
+
+/-- ask for one attribute and take it out of the one-element answer -/
+theorem askAttr_run {β} (tok : Token) (op : TokOp) (x : AttrAns) (s : TokState) (f : AttrAns → TokM β)
+    (h : tok s.count op = .attrs [x]) :
+    (askOk op >>= fun a => attr1 a >>= f) tok s = f x tok (s.push op (.attrs [x])) := by
+  rw [bind_run, askOk_run_of_ne _ _ _ (by rw [h]; simp), h]
+  rfl
+
+/-- the RSA branch of `_p11_object_to_public_key`, on a token whose answers about this object do
+    not depend on the operation index -/
+theorem p11ObjectToPublicKey_rsa_run (tok : Token) (path : String) (slot h : Nat) (n e : Bytes)
+    (hkt : ∀ i, tok i (.getAttr path slot h ["KEY_TYPE"]) = .attrs [.num ckkRsa])
+    (hn : ∀ i, tok i (.getAttr path slot h ["MODULUS"]) = .attrs [.bytes n])
+    (he : ∀ i, tok i (.getAttr path slot h ["PUBLIC_EXPONENT"]) = .attrs [.bytes e]) (s : TokState) :
+    p11ObjectToPublicKey path slot h tok s =
+      ((rsaEncode (beNat e) n).map some,
+        ((s.push (.getAttr path slot h ["KEY_TYPE"]) (.attrs [.num ckkRsa])).push
+          (.getAttr path slot h ["MODULUS"]) (.attrs [.bytes n])).push
+          (.getAttr path slot h ["PUBLIC_EXPONENT"]) (.attrs [.bytes e])) := by
+  unfold p11ObjectToPublicKey
+  rw [askAttr_run _ _ _ _ _ (hkt _)]
+  simp only [↓reduceIte]
+  rw [askAttr_run _ _ _ _ _ (hn _), askAttr_run _ _ _ _ _ (he _)]
+  simp only [attrBytes, bind_run, TokM.pure_run, TokM.lift_run]
+  cases rsaEncode (beNat e) n <;> rfl
+
+/-- SoftHSM2 wraps the point in a DER OCTET STRING `04 <len> 04 …`: the octets after the header -/
+def ecUnwrap (point : Bytes) : Bytes :=
+  if point.take 3 = [4, UInt8.ofNat (point.length - 2), 4] then point.drop 2 else point
+
+/-- the EC branch of `_p11_object_to_public_key` once point and parameters have been read -/
+def ecDerive (point params : Bytes) : Res (Option String) :=
+  if params = ecOidP256 then
+    (if ((ecUnwrap point).length - 1) * 8 / 2 ≠ 256 then err .runtime
+     else pure (some (Base64.encode (ecUnwrap point))))
+  else if params = ecOidP384 then
+    (if ((ecUnwrap point).length - 1) * 8 / 2 ≠ 384 then err .runtime
+     else pure (some (Base64.encode (ecUnwrap point))))
+  else err .runtime
+
+theorem p11ObjectToPublicKey_ec_absent (tok : Token) (path : String) (slot h : Nat) (pt : AttrAns)
+    (hkt : ∀ i, tok i (.getAttr path slot h ["KEY_TYPE"]) = .attrs [.num ckkEc])
+    (hpt : ∀ i, tok i (.getAttr path slot h ["EC_POINT"]) = .attrs [pt])
+    (habs : pt = .none ∨ pt = .bytes []) (s : TokState) :
+    p11ObjectToPublicKey path slot h tok s =
+      (.ok none, (s.push (.getAttr path slot h ["KEY_TYPE"]) (.attrs [.num ckkEc])).push
+          (.getAttr path slot h ["EC_POINT"]) (.attrs [pt])) := by
+  unfold p11ObjectToPublicKey
+  rw [askAttr_run _ _ _ _ _ (hkt _)]
+  simp only [ckkEc, ckkRsa, Nat.reduceEqDiff, ↓reduceIte]
+  rw [askAttr_run _ _ _ _ _ (hpt _)]
+  rcases habs with rfl | rfl <;> rfl
+
+theorem p11ObjectToPublicKey_ec_run (tok : Token) (path : String) (slot h : Nat) (a : UInt8)
+    (r params : Bytes)
+    (hkt : ∀ i, tok i (.getAttr path slot h ["KEY_TYPE"]) = .attrs [.num ckkEc])
+    (hpt : ∀ i, tok i (.getAttr path slot h ["EC_POINT"]) = .attrs [.bytes (a :: r)])
+    (hpar : ∀ i, tok i (.getAttr path slot h ["EC_PARAMS"]) = .attrs [.bytes params])
+    (hlen : 2 ≤ (a :: r).length ∧ (a :: r).length < 258) (s : TokState) :
+    p11ObjectToPublicKey path slot h tok s =
+      (ecDerive (a :: r) params,
+        ((s.push (.getAttr path slot h ["KEY_TYPE"]) (.attrs [.num ckkEc])).push
+          (.getAttr path slot h ["EC_POINT"]) (.attrs [.bytes (a :: r)])).push
+          (.getAttr path slot h ["EC_PARAMS"]) (.attrs [.bytes params])) := by
+  unfold p11ObjectToPublicKey
+  rw [askAttr_run _ _ _ _ _ (hkt _)]
+  simp only [ckkEc, ckkRsa, Nat.reduceEqDiff, ↓reduceIte]
+  rw [askAttr_run _ _ _ _ _ (hpt _)]
+  have hg : ¬ ((a :: r).length < 2 ∨ 258 ≤ (a :: r).length) := by omega
+  simp only [hg, ↓reduceIte]
+  rw [askAttr_run _ _ _ _ _ (hpar _)]
+  simp only [attrBytes, bind_run, TokM.pure_run]
+  have pure_bind : ∀ {α β : Type} (x : α) (f : α → TokM β) (t : Token) (s : TokState),
+      (pure x >>= f) t s = f x t s := fun _ _ _ _ => rfl
+  unfold ecDerive ecUnwrap
+  by_cases h1 : params = ecOidP256
+  · simp only [h1, ↓reduceIte, pure_bind, ite_run, TokM.err_run, TokM.pure_run]
+    split <;> split <;> rfl
+  · by_cases h2 : params = ecOidP384
+    · subst h2
+      simp only [h1, ↓reduceIte, pure_bind, ite_run, TokM.err_run, TokM.pure_run]
+      split <;> split <;> rfl
+    · simp only [h1, h2, ↓reduceIte, err_bind_run]
+      rfl
+
+
+theorem foundKeyTail_run (m : P11Module) (label : String) (cls : Nat) (hh : Option Bool) (sl h : Nat)
+    (pk : Option String) (tok : Token) (s : TokState) (n : Nat) (t : KeyType)
+    (hkt : tok s.count (.getAttr m.path sl h ["KEY_TYPE"]) = .attrs [.num n])
+    (ht : keyTypeOf n = some t) :
+    foundKeyTail m label cls hh sl h pk tok s =
+      (.ok (some { label, keyType := t, keyClass := cls, hashUsingHsm := hh, publicKey := pk,
+                   module := m.path, slot := sl,
+                   privHandle := if cls ≠ ckoPublic then some h else none,
+                   pubHandle := if cls ≠ ckoSecret then some h else none }),
+        s.push (.getAttr m.path sl h ["KEY_TYPE"]) (.attrs [.num n])) := by
+  unfold foundKeyTail
+  rw [askAttr_run _ _ _ _ _ hkt]
+  simp only [ht, TokM.pure_run]
 
 end Kskm
